@@ -232,7 +232,7 @@ Ltac crush := repeat (first [bool_atom | dm]).
 Ltac unfold_ops :=
   unfold append_set, append_range, append_sampled, append_alias, append_frame_idx, append_frame_name, append_frame,
     append_frame_be, delete_dims, s_label, s_unit, s_interval, s_offset, t_labels, t_label, r_ticks, r_label, r_unit,
-    r_tick_at, r_ticks_sc, f_query, arr_label, arr_unit, arr_data, reopen, drop_foreign, recreate_frame, get_dim, all_dims, with_dim, rm, wr in *.
+    r_tick_at, r_ticks_sc, f_query, s_at, f_ticks, range_of_array, dims_of_kind, arr_label, arr_unit, arr_data, reopen, drop_foreign, recreate_frame, get_dim, all_dims, with_dim, rm, wr in *.
 
 Ltac state_simpl :=
   cbn [fst snd dims a_label a_unit a_data a_ty a_rank frames ro foreign b2_alive add_dim with_dims with_label with_unit with_data set_dim] in *.
@@ -301,7 +301,7 @@ Proof. intros. unfold s_count, count, abs. cbn [q_dims]. apply zlen_map. Qed.
 
 Ltac rep_simpl :=
   cbn [repaired check_sorted_on_append check_interval_on_append keep_negative_offset validate_unit_first
-       validate_frame_first reject_nan ro_delete_throws] in *.
+       validate_frame_first reject_nan ro_delete_throws frame_col_strict] in *.
 Ltac abs_simpl :=
   cbn [abs q_dims q_label q_unit q_data q_ty q_rank q_frames q_ro q_foreign q_b2 s_with_dims s_with_label s_with_unit s_with_data
        q_data_dbl s_count] in *.
@@ -339,6 +339,25 @@ Proof.
   intros i I. now rewrite (lookup_later p r i a H1 H2 I).
 Qed.
 
+Lemma dims_kind_list_gf : forall k m a, keys_from_z a m ->
+  flat_map (fun i => match lookup i m with
+                     | Some d => if kind_eqb (kind_of d) k then [(i, kind_of d)] else []
+                     | None => [] end) (keys m)
+  = filter (fun p => kind_eqb (snd p) k) (map (fun p => (fst p, kind_of (snd p))) m).
+Proof.
+  induction m as [|p r IH]; intros a H; [reflexivity|].
+  destruct H as [H1 H2]. cbn [keys map flat_map filter]. fold (keys r).
+  assert (L : lookup (fst p) (p :: r) = Some (snd p)) by (destruct p; cbn [lookup fst snd]; now rewrite Z.eqb_refl).
+  rewrite L. cbn [snd].
+  assert (T : flat_map (fun i => match lookup i (p :: r) with
+                     | Some d => if kind_eqb (kind_of d) k then [(i, kind_of d)] else []
+                     | None => [] end) (keys r)
+              = filter (fun p => kind_eqb (snd p) k) (map (fun p => (fst p, kind_of (snd p))) r)).
+  { rewrite <- (IH (a + 1) H2). rewrite !flat_map_concat_map. f_equal. apply map_ext_in.
+    intros i I. now rewrite (lookup_later p r i a H1 H2 I). }
+  rewrite T. destruct (kind_eqb (kind_of (snd p)) k); reflexivity.
+Qed.
+
 Lemma obs_list_gf : forall (F : dimdesc -> dobs) m a, keys_from_z a m ->
   map (fun i => (i, match lookup i m with Some d => Some (i, F d) | None => None end)) (keys m)
   = map (fun p => (fst p, Some (fst p, F (snd p)))) m.
@@ -366,6 +385,17 @@ Lemma dims_refines : forall s, gap_free (dims s) ->
 Proof.
   intros s H. rewrite s_count_abs. unfold count. pose proof H as G. apply gap_free_zrange in G. rewrite <- G.
   unfold keys at 2. rewrite combine_fst_snd. now apply (dims_list_gf _ 1).
+Qed.
+
+Lemma dims_kind_refines : forall s k, gap_free (dims s) ->
+  flat_map (fun i => match lookup i (dims s) with
+                     | Some d => if kind_eqb (kind_of d) k then [(i, kind_of d)] else []
+                     | None => [] end) (zrange (count s))
+  = filter (fun p => kind_eqb (snd p) k)
+           (map (fun p => (fst p, kind_of (snd p))) (combine (zrange (s_count (abs s))) (map snd (dims s)))).
+Proof.
+  intros s k H. rewrite s_count_abs. unfold count. pose proof H as G. apply gap_free_zrange in G. rewrite <- G.
+  unfold keys at 2. rewrite combine_fst_snd. now apply (dims_kind_list_gf k _ 1).
 Qed.
 
 Lemma observe_refines : forall s, gap_free (dims s) -> dobserve s = s_observe (abs s).
@@ -413,7 +443,7 @@ Proof.
   all: rewrite ?zlen_map, ?lempty_count, ?fne_zero.
   all: rewrite ?delete_all_count by assumption.
   all: unfold ticks_of, s_ticks_of, data_dbl, q_data_dbl in *; abs_simpl.
-  all: rewrite ?dims_refines, ?observe_refines by assumption.
+  all: rewrite ?dims_refines, ?dims_kind_refines, ?observe_refines by assumption.
   all: try (destruct (0 <? count s) eqn:E0; [|rewrite ?(create_group_first s H E0)]).
   all: rewrite ?s_count_abs.
   all: unfold count in *.
@@ -951,3 +981,68 @@ Proof.
   intros s n c nm H. cbn [dstep]. unfold append_frame, append_frame_idx, append_frame_name, append_frame_be, fref_cols.
   rep_simpl. repeat split; crush; cbn [fst snd]; eauto.
 Qed.
+
+(* ------------------------------------------------------------------------------------------ *)
+(** * Further public routes *)
+
+(** dimensions(filter) is dimensions() filtered *)
+Theorem dims_filter_route : forall b s k, gap_free (dims s) ->
+  snd (dstep b Dims s) = Ok (ADims (map (fun p => (fst p, kind_of (snd p))) (dims s))) /\
+  snd (dstep b (DimsOfKind k) s) =
+    Ok (ADims (filter (fun p => kind_eqb (snd p) k) (map (fun p => (fst p, kind_of (snd p))) (dims s)))).
+Proof.
+  intros b s k H. cbn [dstep]. unfold all_dims, dims_of_kind. cbn [snd].
+  pose proof H as G. apply gap_free_zrange in G. unfold count. rewrite <- G. split.
+  - now rewrite (dims_list_gf _ 1 H).
+  - now rewrite (dims_kind_list_gf k _ 1 H).
+Qed.
+
+(** operator[] of a sampled dimension is index * interval + offset; of a range dimension it is tickAt *)
+Theorem sampled_at : forall b s i k x off u l, lookup i (dims s) = Some (DSampled x off u l) ->
+  dstep b (SAt i k) s = (s, Ok (ATick (fadd (fmul (ofZ k) x) (match off with Some o => o | None => fzero end)))).
+Proof. intros b s i k x off u l L. cbn [dstep]. unfold s_at, with_dim. now rewrite L. Qed.
+
+Lemma cells_length : forall ty c off n, List.length (cells ty c off n) = Z.to_nat n.
+Proof. intros. unfold cells, zseq. now rewrite !map_length, seq_length. Qed.
+
+(** DataFrameDimension::ticks<T> as IMPLEMENTED (and as the check judges it): every row from [offset], whatever
+    [resize] and the size of the vector *)
+Theorem frame_ticks_all_rows : forall fs fo ci col rs vs off l fr, frame_of fs fo = Ok fr ->
+  frame_ticks false fs fo ci col rs vs off = Ok l -> zlen l = fr_rows fr - off.
+Proof.
+  intros fs fo ci col rs vs off l fr F. unfold frame_ticks. rewrite F. cbn [bind].
+  destruct (pick_col ci col); [|discriminate]. destruct (nth_col fr z); [|discriminate].
+  destruct (Z.ltb_spec (fr_rows fr) off); [discriminate|]. intros X. inversion X. unfold zlen. rewrite cells_length. lia.
+Qed.
+
+(** REMARK (documentation discrepancy, not an obligation): the rule the documentation of ticks<T> states -
+    [resize] -> every row from [offset], otherwise as many ticks as the vector holds *)
+Theorem frame_ticks_count : forall fs fo ci col rs vs off l fr, frame_of fs fo = Ok fr -> 0 <= vs ->
+  frame_ticks true fs fo ci col rs vs off = Ok l ->
+  zlen l = if rs then fr_rows fr - off else vs.
+Proof.
+  intros fs fo ci col rs vs off l fr F V. unfold frame_ticks. rewrite F. cbn [bind].
+  destruct (pick_col ci col); [|discriminate]. destruct (nth_col fr z); [|discriminate].
+  destruct rs.
+  - destruct (Z.ltb_spec (fr_rows fr) off); [discriminate|]. intros X. inversion X. unfold zlen. rewrite cells_length. lia.
+  - destruct ((0 <? vs) && (fr_rows fr <? off + vs)); [discriminate|]. intros X. inversion X. unfold zlen. rewrite cells_length. lia.
+Qed.
+
+(** /repo HEAD: a column index equal to the number of columns is accepted; ticks<T> ignores [resize] *)
+Definition cells_len (r : res ans) : Z := match r with Ok (ACells l) => zlen l | _ => -1 end.
+
+Lemma frame_col_refuted :
+  is_ok_ans (snd (dstep code_head (AppendFrameIdx (FOrd 0) 2) w_init)) = true /\
+  is_ok_ans (snd (dstep code_head (FQuery 1 QLabel None) (dfinal code_head [AppendFrameIdx (FOrd 0) 2] w_init))) = false /\
+  is_ok_ans (snd (dstep repaired (AppendFrameIdx (FOrd 0) 2) w_init)) = false /\
+  is_ok_ans (snd (dstep repaired (AppendFrameIdx (FOrd 0) 1) w_init)) = true.
+Proof. vm_compute. repeat split; reflexivity. Qed.
+
+(** REMARK (documentation discrepancy, not an obligation): with resize = false and a vector of one element the code
+    returns both rows, the documented rule would return one *)
+Definition ticks_len (r : res (list cellv)) : Z := match r with Ok l => zlen l | _ => -1 end.
+Lemma ticks_documented_rule_differs :
+  cells_len (snd (dstep repaired (FTicks 1 None false 1 0) (dfinal repaired [AppendFrameIdx (FOrd 0) 1] w_init))) = 2 /\
+  ticks_len (frame_ticks false [w_frame] (Some 0%nat) (Some 1) None false 1 0) = 2 /\
+  ticks_len (frame_ticks true [w_frame] (Some 0%nat) (Some 1) None false 1 0) = 1.
+Proof. vm_compute. repeat split; reflexivity. Qed.
